@@ -36,7 +36,7 @@ class _B:
         f = self.I.mod.funcs.get(name)
         if f is None:
             raise AnalysisError(f"anchor vanished: lnodes.{name}")
-        return self.I.call_func(f.node, list(a))
+        return self.I.call_f(f, list(a))
 
     def sym(self, n, t="DataType.SCALAR"):
         return self.N("Symbol", n, t)
@@ -148,7 +148,7 @@ def pass_equiv(repo, res):
         res.ob(key)
         orig = copy.deepcopy(sec)
         try:
-            out = b.I.call_func(f.node, [sec, None])
+            out = b.I.call_f(f, [sec, None])
         except Raised as e:
             res.fail(key, f"licm raises ({e.what}) on `{label}`", opt.line(f.node))
             continue
@@ -169,7 +169,7 @@ def pass_equiv(repo, res):
     code = defs()
     orig = copy.deepcopy(code)
     try:
-        out = b.I.call_func(g.node, [code, None])
+        out = b.I.call_f(g, [code, None])
     except Raised as e:
         res.fail(key, f"optimize raises ({e.what}) on coefficient/Jacobian definition sections", opt.line(g.node))
         out = None
@@ -191,7 +191,7 @@ def pass_equiv(repo, res):
     code = defs()
     orig = copy.deepcopy(code)
     try:
-        out = b.I.call_func(h.node, [code, "Coefficient"])
+        out = b.I.call_f(h, [code, "Coefficient"])
         compare(key, "fuse_sections(Coefficient)", b.quadloop(orig), b.quadloop(out), outs, opt.line(h.node))
         key3 = f"{h.key}:count"
         res.ob(key3)
@@ -204,10 +204,10 @@ def pass_equiv(repo, res):
     h = opt.funcs["fuse_loops"]
     key = f"{h.key}:equiv"
     res.ob(key)
-    fused = b.I.call_func(opt.funcs["fuse_sections"].node, [defs(), "Coefficient"])[0]
+    fused = b.I.call_f(opt.funcs["fuse_sections"], [defs(), "Coefficient"])[0]
     orig = copy.deepcopy(fused)
     try:
-        out = b.I.call_func(h.node, [fused])
+        out = b.I.call_f(h, [fused])
         compare(key, "fuse_loops on the fused Coefficient section", b.quadloop(orig), b.quadloop(out), outs, opt.line(h.node))
     except Raised as e:
         res.fail(key, f"fuse_loops raises ({e.what})", opt.line(h.node))
@@ -221,7 +221,7 @@ def pass_equiv(repo, res):
     code = [b.definition("Coefficient", "w0", "w", "FE0", 3), b.definition("Jacobian", "J_c0", "coordinate_dofs", "FE3", 3, stride=3), inter, tc]
     orig = copy.deepcopy(code)
     try:
-        out = b.I.call_func(g.node, [code, None])
+        out = b.I.call_f(g, [code, None])
         compare(key, "optimize on definitions + intermediates + tensor computation", b.quadloop(orig), b.quadloop(out), ("A",), opt.line(g.node))
     except Raised as e:
         res.fail(key, f"optimize raises ({e.what}) on a whole quadrature-loop body", opt.line(g.node))
